@@ -347,6 +347,7 @@ def manXml (own : String) (m : Man) : Elem :=
 
 def udXml : Option (List (String × String)) → List Elem
   | none => []
+  | some [] => if xmlUdSkipsEmpty then [] else [.node "userDefinedParameters" []]
   | some kvs => [.node "userDefinedParameters" (kvs.map fun (k, v) => Elem.leaf "USER_DEFINED" [("parameter", k)] (.s v))]
 
 /-- `opm._dumps_xml` -/
